@@ -144,6 +144,45 @@ class Spec:
 # ('nbroken', path, [spec], variant)   container.cssText = almost a rule (BROKEN_TAILS)
 # ('ntext', path, [spec]) ('mode', raising) ('insl', [spec], idx|None) ('ninsl', path, [spec], idx|None)
 
+# operations on declaration blocks / properties of the styled rule at `path` (modelled: Model/SheetBlocks.lean)
+# ('dnew', path, [[name, wf], ...], form)  form 0: rule.style = CSSStyleDeclaration(cssText=…), 1: rule.style = text,
+#                                          2: rule.cssText = <same prelude>{text}
+# ('dshare', path, src) rule.style = other.style      ('dtext', path, items) rule.style.cssText = text
+# ('dset', path, name, wf, empty, replace) setProperty / item assignment   ('dsetobj', path, name) setProperty(Property)
+# ('ddel', path, name) removeProperty / del style[name]
+# ('dshareprop', path, src, i) rule.style.setProperty(<i-th Property object of the block of the rule at src>)
+# edits around the DOM methods (Model/SheetRaw.lean): ('rawdel', path, i) del sheet.cssRules[i] (path ()) / del
+# rule.cssRules[i]; ('rawins', spec, i) sheet.cssRules.insert(i, rule); ('reins', path, idx|None)
+# sheet.insertRule(<the rule object at path>, idx) — the last operation of a history
+DNAMES = ['top', 'color', 'right', 'margin-top']      # the names the operations use; the names of the declarations the
+                                                      # generated rules are made with (left, margin, font-family) are not among them
+DOPS = ('dnew', 'dshare', 'dtext', 'dset', 'dsetobj', 'ddel', 'dshareprop')
+STYLED = ('STYLE_RULE', 'PAGE_RULE', 'FONT_FACE_RULE', 'MARGIN_RULE')
+
+
+def cname(name):
+    return enc(name) if name in DNAMES else '-'
+
+
+def collapse(l):
+    """entries of properties whose name is outside the pool (shown as `-`) are shown once per run (see Drv/C09.lean)"""
+    out = []
+    for x in l:
+        if out and out[-1] == x and x.startswith('-'):
+            continue
+        out.append(x)
+    return out
+
+
+def items_text(items):
+    # a declaration without a value is not well-formed
+    return '; '.join('%s: 1px' % n if wf else '%s: ' % n for n, wf in items)
+
+
+def items_proto(items):
+    return ','.join('%s:%d' % (enc(n), int(bool(wf))) for n, wf in items) or '-'
+
+
 # how a nested text is broken: content after the closing brace, or the block is not closed
 BROKEN_TAILS = ['} ', '}/*c*/', '};', '} .z{left:0}', '}}', '} @x y;', '}\n', 'UNCLOSED', 'NOBLOCK']
 
@@ -182,6 +221,18 @@ def ops_from_json(data):
             out.append((t, tuple(op[1]), [Spec.from_json(s) for s in op[2]]))
         elif t in ('ndel', 'decl'):
             out.append((t, tuple(op[1]), op[2]))
+        elif t in ('dnew', 'dtext'):
+            out.append((t, tuple(op[1]), [tuple(i) for i in op[2]]) + tuple(op[3:]))
+        elif t == 'dshare':
+            out.append((t, tuple(op[1]), tuple(op[2])))
+        elif t == 'dshareprop':
+            out.append((t, tuple(op[1]), tuple(op[2]), op[3]))
+        elif t in ('rawdel', 'reins'):
+            out.append((t, tuple(op[1]), op[2]))
+        elif t == 'rawins':
+            out.append((t, Spec.from_json(op[1]), op[2]))
+        elif t in ('dset', 'dsetobj', 'ddel'):
+            out.append((t, tuple(op[1])) + tuple(op[2:]))
         elif t == 'nbroken':
             out.append((t, tuple(op[1]), [Spec.from_json(s) for s in op[2]], op[3]))
         else:
@@ -238,14 +289,34 @@ def op_line(op):
         return 'ninsl %s %s %s' % (path(op[1]), specs(op[2]), idx(op[3]))
     if t == 'mode':
         return 'mode %d' % op[1]
+    if t == 'dnew':
+        return 'dnew %s %s %d' % (path(op[1]), items_proto(op[2]), op[3])
+    if t == 'dshare':
+        return 'dshare %s %s' % (path(op[1]), path(op[2]))
+    if t == 'dtext':
+        return 'dtext %s %s' % (path(op[1]), items_proto(op[2]))
+    if t == 'dset':
+        return 'dset %s %s %d %d %d' % (path(op[1]), enc(op[2]), op[3], op[4], op[5])
+    if t == 'dsetobj':
+        return 'dsetobj %s %s' % (path(op[1]), enc(op[2]))
+    if t == 'ddel':
+        return 'ddel %s %s' % (path(op[1]), enc(op[2]))
+    if t == 'dshareprop':
+        return 'dshareprop %s %s %d' % (path(op[1]), path(op[2]), op[3])
+    if t == 'rawdel':
+        return 'rawdel %s %d' % (path(op[1]) if op[1] else '-', op[2])
+    if t == 'rawins':
+        return 'rawins %s %d' % (op[1].proto(), op[2])
+    if t == 'reins':
+        return 'reins %s %s' % (path(op[1]), idx(op[2]))
     if t == 'decl':
-        return None         # not an operation of the model
+        return None         # not an operation of the model (kept for the witnesses of the fixed findings)
     raise ValueError(op)
 
 
 def op_key(op):
-    return tuple(x.key() if isinstance(x, Spec) else tuple(s.key() for s in x) if isinstance(x, list) else x
-                 for x in op)
+    return tuple(x.key() if isinstance(x, Spec) else tuple(s.key() if isinstance(s, Spec) else tuple(s) for s in x)
+                 if isinstance(x, list) else x for x in op)
 
 
 # --------------------------------------------------------------------------------------------------
@@ -433,6 +504,38 @@ class Walker:
             specs.append(s)
         return specs
 
+    def ditems(self):
+        r = self.rng
+        return [(r.choice(DNAMES), int(r.random() < 0.85)) for _ in range(r.randint(0, 3))]
+
+    def decl_op(self, st, styled):
+        r = self.rng
+        path = r.choice(styled)
+        x = r.random()
+        if x < 0.2:
+            form = r.randrange(3)
+            rule = st.at(path)
+            if form == 2 and (rule.type == rule.PAGE_RULE or (rule.type == rule.STYLE_RULE and
+                                                              rule.selectorList._getUsedUris())):
+                form = 1    # the text of an @page rule is an operation on its rule list; a selector with a prefix is not rewritten
+            return ('dnew', path, self.ditems(), form)
+        if x < 0.35:
+            return ('dtext', path, self.ditems())
+        if x < 0.65:
+            return ('dset', path, r.choice(DNAMES), int(r.random() < 0.9), int(r.random() < 0.1), int(r.random() < 0.8))
+        if x < 0.78:
+            return ('dsetobj', path, r.choice(DNAMES))
+        if x < 0.81:
+            # a contained object is handed in (known findings C09-shared-declaration-block / C09-shared-property)
+            src = r.choice(styled)
+            if r.random() < 0.5:
+                return ('dshare', path, src)
+            ps = [x.value for x in st.at(src).style.seq if hasattr(x.value, 'literalname')]
+            good = [i for i, q in enumerate(ps) if cname(q.name) != '-']
+            if good:
+                return ('dshareprop', path, src, r.choice(good))
+        return ('ddel', path, r.choice(DNAMES))
+
     def next_op(self, st):
         """st: HistState (implementation side) — used to pick indexes, paths and declared URIs"""
         r = self.rng
@@ -465,17 +568,28 @@ class Walker:
             return ('nsdel', r.choice(self.PRE))
         if x < 0.755:
             return ('mode', int(r.random() < 0.6))
-        if x < 0.80:
-            styled = [p for p, rule, _ in st.walk() if rule.type in (rule.STYLE_RULE, rule.PAGE_RULE, rule.FONT_FACE_RULE,
-                                                                      rule.MARGIN_RULE)]
+        if x < 0.766 and n:
+            # edits around the DOM methods (known finding C09-raw-list-edit)
+            y = r.random()
+            if y < 0.5:
+                return ('rawdel', (), r.randint(-n, n - 1))
+            if y < 0.7 and conts:
+                cs = [(p, c) for p, c in conts if len(c.cssRules)]
+                if cs:
+                    p, c = r.choice(cs)
+                    return ('rawdel', p, r.randint(-len(c.cssRules), len(c.cssRules) - 1))
+            return ('rawins', self.spec(r.choice(['style', 'import', 'comment', 'variables', 'fontface', 'charset', 'unknown']),
+                                        declared), r.randint(-n - 1, n + 1))
+        if x < 0.83:
+            styled = [p for p, rule, _ in st.walk() if rule.typeString in STYLED]
             if styled:
-                return ('decl', r.choice(styled), r.randint(0, 9))
+                return self.decl_op(st, styled)
         if not conts:
             return ('add', self.spec(r.choice(['media', 'page']), declared), 0)
         path, c = r.choice(conts)
         m = len(c.cssRules)
         is_media = c.type == c.MEDIA_RULE
-        if x < 0.80 + 0.03:
+        if x < 0.83 + 0.02:
             good = ['style', 'comment', 'unknown', 'page', 'media', 'style'] if is_media else ['margin']
             ks = [r.choice(good) if r.random() < 0.8 else r.choice(ALLKINDS) for _ in range(r.randint(0, 4))]
             return ('ninsl', path, [self.spec(k, declared, 1) for k in ks], self.index(m))
@@ -522,8 +636,15 @@ class HistState:
     def __init__(self, sheet):
         self.sheet = sheet
         self.tracked = {}
-        self.decls = {}           # id -> (declaration block, type of the rule it was seen in)
-        self.props = {}           # id -> (property, ...)
+        self.decls = {}           # id -> (declaration block, type of the rule it was seen in)   (oracle's registry)
+        self.props = {}           # id -> property object made by an operation of the history
+        self.oprops = {}          # id -> (property, type of the rule) (oracle's registry)
+        self.blocks = {}          # id -> every declaration block seen as the style of a rule (dump's registry)
+        self.bprops = {}          # id -> every property seen in such a block
+        self.raw_objs = set()         # ids of rule objects removed / inserted by a raw list edit
+        self.reinserted = set()       # ids of rule objects handed to insertRule while contained
+        self.shared_blocks = set()    # ids of block objects handed to a second rule (dshare)
+        self.shared_props = set()     # ids of Property objects handed to a second block (dshareprop)
         self.taint_obj = {}       # id(obj) -> finding id (clause-specific: parent links / nested kind)
         self.taint_order = None   # finding id while the top-level order is broken by a known finding
 
@@ -591,8 +712,8 @@ class HistState:
             elif t == 'nins':
                 c = self.at(op[1])
                 spec, via = op[2], op[4]
-                # a string is parsed in a temp sheet that knows no namespaces: every prefix is undeclared there
-                arg = spec.text(lambda u: None) if via else spec.build(self.tracked)
+                # a string is parsed in a temp sheet that is given the namespaces of the container's sheet (cfe1126)
+                arg = spec.text(self.prefix_of_sheet) if via else spec.build(self.tracked)
                 self.last_arg = arg
                 r = c.insertRule(arg, op[3])
             elif t in ('insl', 'ninsl'):
@@ -624,6 +745,78 @@ class HistState:
                 r = None
             elif t == 'mode':
                 cssutils.log.raiseExceptions = bool(op[1])
+                r = None
+            elif t == 'rawdel':
+                rules = self.sheet.cssRules if not op[1] else self.at(op[1]).cssRules
+                o = rules[op[2]]
+                self.raw_objs.add(id(o))                  # region of C09-raw-list-edit
+                del rules[op[2]]
+                r = None
+            elif t == 'rawins':
+                o = op[1].build(self.tracked)
+                self.raw_objs.add(id(o))
+                self.sheet.cssRules.insert(op[2], o)
+                r = None
+            elif t == 'reins':
+                o = self.at(op[1])
+                self.last_arg = o
+                self.reinserted.add(id(o))                # region of C09-rule-reinserted
+                r = self.sheet.insertRule(o, op[2])
+            elif t in DOPS:
+                rule = self.at(op[1])
+                if rule.typeString not in STYLED:
+                    return 'ERR NoSuchPath'
+                if t == 'dnew':
+                    text, form = items_text(op[2]), op[3]
+                    if form == 0:
+                        rule.style = css.CSSStyleDeclaration(cssText=text)
+                    elif form == 1:
+                        rule.style = text
+                    elif rule.type == rule.STYLE_RULE:
+                        rule.cssText = '.a{%s}' % text
+                    elif rule.type == rule.FONT_FACE_RULE:
+                        rule.cssText = '@font-face{%s}' % text
+                    elif rule.type == rule.MARGIN_RULE:
+                        rule.cssText = '%s{%s}' % (rule.margin, text)
+                    else:
+                        raise ValueError(op)
+                elif t == 'dshare':
+                    other = self.at(op[2])
+                    if other.typeString not in STYLED:
+                        return 'ERR NoSuchPath'
+                    if other.style is not rule.style:
+                        self.shared_blocks.add(id(other.style))      # region of C09-shared-declaration-block
+                    rule.style = other.style
+                elif t == 'dshareprop':
+                    other = self.at(op[2])
+                    if other.typeString not in STYLED:
+                        return 'ERR NoSuchPath'
+                    ps = [x.value for x in other.style.seq if isinstance(x.value, css.Property)]
+                    if op[3] >= len(ps) or cname(ps[op[3]].name) == '-':
+                        return 'ERR NoSuchPath'
+                    p = ps[op[3]]
+                    if other.style is not rule.style:
+                        self.shared_props.add(id(p))                 # region of C09-shared-property
+                    self.props[id(p)] = p
+                    rule.style.setProperty(p)
+                elif t == 'dtext':
+                    rule.style.cssText = items_text(op[2])
+                elif t == 'dset':
+                    name, wf, empty, replace = op[2:6]
+                    value = '' if empty else '1px' if wf else '}'
+                    if replace and not empty and wf and len(name) % 2:
+                        rule.style[name] = value                      # item assignment = setProperty(name, value, None)
+                    else:
+                        rule.style.setProperty(name, value, replace=bool(replace))
+                elif t == 'dsetobj':
+                    p = css.Property(op[2], '2px')
+                    self.props[id(p)] = p
+                    rule.style.setProperty(p)
+                elif t == 'ddel':
+                    if len(op[2]) % 2:
+                        del rule.style[op[2]]
+                    else:
+                        rule.style.removeProperty(op[2])
                 r = None
             elif t == 'decl':
                 # edits of the declaration block of the rule at `path` (implementation only: the structure of the
@@ -667,7 +860,7 @@ class HistState:
         except AttributeError as e:
             return 'ERR AttributeError'
         except IndexError:
-            if t in ('nins', 'ninsl', 'ndel', 'ntext', 'decl'):
+            if t in ('nins', 'ninsl', 'ndel', 'ntext', 'decl', 'rawdel', 'reins') + DOPS:
                 return 'ERR NoSuchPath'     # the history addresses a nested list that is not there (any more)
             raise
         if r is None:
@@ -678,11 +871,25 @@ class HistState:
 
     # -- canonical dump (same format as Drv/C09.lean)
     def dump(self):
+        from cssutils.css import Property
         sheet = self.sheet
         live = set()
         for _, r, _ in self.walk():
             live.add(id(r))
             self.tracked[id(r)] = r
+
+        def props_of(d):
+            return [x.value for x in d.seq if isinstance(x.value, Property)]
+
+        def block(d, r):
+            pr = d._parentRule
+            link = '-' if pr is None else 'R' if pr is r else 'X'
+            ps = []
+            for p in props_of(d):
+                self.bprops[id(p)] = p
+                ps.append(cname(p.name) + ('-' if p._parent is None else 'P' if p._parent is d else 'X'))
+            return '{' + link + '+'.join(collapse(ps)) + '}'
+        held = set()
 
         def show(r, container):
             pss = 'S' if r._parentStyleSheet is sheet else '-' if r._parentStyleSheet is None else 'T'
@@ -701,6 +908,11 @@ class HistState:
             elif r.type == r.MARGIN_RULE:
                 extra = '~' + enc(r.margin or '')
             s = '%d%s%s%s' % (r.type, pss, link, extra)
+            if r.typeString in STYLED:
+                d = r._style
+                self.blocks[id(d)] = d
+                held.add(id(d))
+                s += block(d, r)
             if self.is_container(r):
                 s += '(' + ','.join(show(k, r) for k in r.cssRules) + ')'
             return s
@@ -715,8 +927,19 @@ class HistState:
         self.gone_roots = [o for o in nonlive if id(o) not in contained]
         gone = sorted(show(o, None) for o in self.gone_roots)
         ns = sorted('%s=%s' % (enc(p), enc(u)) for p, u in sheet.namespaces.namespaces.items())
-        return 'enc=%s ns=%s rules=%s gone=%s' % (enc(sheet.encoding), ','.join(ns) or '-', ','.join(rules) or '-',
-                                                  ';'.join(gone) or '-')
+        # replaced blocks: every block seen as a rule's style that no rule object holds any more; loose properties:
+        # every property seen in a block or made by an operation that no block seen holds
+        gb = sorted(block(d, None) for i, d in self.blocks.items() if i not in held)
+        inblock = set()
+        for d in self.blocks.values():
+            for p in props_of(d):
+                inblock.add(id(p))
+        loose = [p for i, p in list(self.bprops.items()) + list(self.props.items()) if i not in inblock]
+        loose = {id(p): p for p in loose}.values()
+        gp = collapse(sorted(cname(p.name) + ('-' if p._parent is None else 'X') for p in loose))
+        return 'enc=%s ns=%s rules=%s gone=%s gb=%s gp=%s' % (
+            enc(sheet.encoding), ','.join(ns) or '-', ','.join(rules) or '-', ';'.join(gone) or '-',
+            ';'.join(gb) or '-', ','.join(gp) or '-')
 
     def kinds_tree(self, sheet=None):
         sheet = sheet or self.sheet
@@ -776,7 +999,7 @@ class Env:
         sheet._setFetcher(lambda url: None)
         return HistState(sheet)
 
-    def history(self, ops, raising=True, kind='history', fresh_ns=False):
+    def history(self, ops, raising=True, kind='history', fresh_ns=False, reparse=True):
         """run on the implementation; queue the model lines; returns the final length of the sheet's list"""
         if fresh_ns:
             ops = [self.freshen(op, i) for i, op in enumerate(ops)]
@@ -795,7 +1018,7 @@ class Env:
                     lines.append(op_line(op))
                     expect.append(out + ' | ' + d)
                 self.oracle.after(st, op, out, pre, ops[:i + 1], raising)
-            b = self.oracle.end(st, ops, raising)
+            b = self.oracle.end(st, ops, raising) if reparse else None
             lines.append('reparse')
             expect.append(None if b is None else 'R ' + b)
         self.cssutils.log.raiseExceptions = self.saved_raise
@@ -837,6 +1060,10 @@ class Env:
                     lines.append(op_line(op))
                     expect.append(out + ' | ' + d)
                 self.oracle.after(st, op, out, pre, ops, raising)
+                if op[0] in ('rawins', 'reins'):
+                    # the model follows the code from here on only while the rules of the sheet's list name the sheet
+                    # (the two put-back paths of insertRule adopt every rule of the old list): the walk ends
+                    break
                 if i % 10 == 9:
                     self.oracle.end(st, ops, raising)
             b = self.oracle.end(st, ops, raising)
